@@ -116,3 +116,34 @@ async fn retries_bounded() {
         }
     }
 }
+
+/// C16 (completeness within a round): blocks the scheduler has given up on do not use up the peer's quota — a block that
+/// is announced behind them is still requested
+#[tokio::test]
+#[serial_test::serial]
+async fn abandoned_blocks_do_not_starve_the_queue() {
+    let t = TestManager::default();
+    let blockchain = t.blockchain_lock.read().await;
+    for batch in 1..4usize {
+        let mut state = BlockchainSyncState::new(batch);
+        for k in 0..batch { state.received_block_picture.entry(1).or_default().push_back((3 + k as u64, [7 + k as u8; 32])); }
+        state.build_peer_block_picture(blockchain.deref());
+        // every fetch of these blocks fails until the scheduler gives up on them
+        for _round in 0..(3 * (MAX_RETRIES_PER_BLOCK as usize + 3)) {
+            let sel = state.get_blocks_to_fetch_per_peer();
+            for (p, v) in sel.iter() { for (hash, id) in v.iter() { state.mark_as_failed(*id, *hash, *p); } }
+        }
+        // a healthy block is announced behind them
+        let healthy = [99u8; 32];
+        state.received_block_picture.entry(1).or_default().push_back((50, healthy));
+        state.build_peer_block_picture(blockchain.deref());
+        let mut requested = false;
+        for _round in 0..5 {
+            let sel = state.get_blocks_to_fetch_per_peer();
+            if sel.values().any(|v| v.iter().any(|(h, _)| *h == healthy)) { requested = true; }
+        }
+        if !requested {
+            witness(format!("batch size {}: {} block(s) failed until the scheduler gave up on them; a further block announced by the same peer is never requested although nothing is in flight — the abandoned entries keep using up the quota", batch, batch));
+        }
+    }
+}
